@@ -29,7 +29,11 @@ MANIFEST = dict(
     text="Lean 4 theorems (XmpProps.C13) prove for ALL accumulator values and all amplification settings the API admits that, in the model "
          "of downmix_int_8bit/16bit and of the final stage of libxmp_mixer_softmixer, unsigned output = signed output + mid-scale offset "
          "(= top bit flipped), 8-bit output = high byte of 16-bit output (signed and unsigned, also byte-wise), each amplification step "
-         "doubles the pre-clipping value (with the observable halving/clipping corollary), and the format flags only select the layout "
+         "doubles the pre-clipping value (with the observable halving/clipping corollary), the downmix is monotone in every encoding "
+         "(C13_downmix_monotone: a larger accumulator never gives a smaller sample, unsigned words included), saturating "
+         "(C13_downmix_saturating: output = clamp of the floor-shifted accumulator, sticking at the limits beyond (HI+1)*2^shift / below "
+         "LO*2^shift) and sign-preserving (C13_downmix_sign), a louder amplification never moves a sample towards zero (C13_amp_monotone), "
+         "and the format flags only select the layout "
          "(bytes written = ticksize*(2-mono)*(2-8bit) = buffer_size, within the allocations). C13_timeline proves configuration "
          "non-interference for a player of the shape of xmp_play_frame; C13_timeline_writers (decide over a table regenerated from src/*.c on "
          "every run) proves that no statement that may write p->ord,row,pos,frame,speed,bpm,loop_count,current_time,frame_time or p->flow.* "
@@ -51,7 +55,8 @@ MANIFEST = dict(
 P = "Xmp.Downmix."
 REQUIRED = [P + n for n in (
     "C13_unsigned", "C13_unsigned_offsets", "C13_8_is_high_byte", "C13_amp_doubles", "C13_amp_doubles_observable",
-    "C13_amp_api_range", "C13_buffer_layout", "C13_ticksize_guard", "C13_frame_encodings", "C13_timeline", "C13_timeline_writers",
+    "C13_amp_api_range", "C13_downmix_monotone", "C13_downmix_saturating", "C13_downmix_sign", "C13_amp_monotone",
+    "C13_buffer_layout", "C13_ticksize_guard", "C13_frame_encodings", "C13_timeline", "C13_timeline_writers",
     "cap_fits", "cap_assigned_is_guard", "seqWriters_outside_mixer", "seqWriters_scan_sane", "shifts_match_code", "offsets_match_code", "limits_consistent",
     "fmt_bits_distinct")]
 
